@@ -1733,6 +1733,7 @@ int yr_re_exec(
   RE_FIBER_LIST fibers;
   RE_FIBER* fiber;
   RE_FIBER* next_fiber;
+  RE_FIBER* prev_fiber;
 
   int bytes_matched;
   int max_bytes_matched;
@@ -2060,9 +2061,14 @@ int yr_re_exec(
         break;
 
       case ACTION_CONTINUE:
+        prev_fiber = fiber->prev;
         FAIL_ON_ERROR_WITH_CLEANUP(
             _yr_re_fiber_sync(&fibers, &context->re_fiber_pool, fiber),
             _yr_re_fiber_kill_all(&fibers, &context->re_fiber_pool));
+        // The fiber itself can be killed while it is synced (a split that
+        // was already followed, as in \b(a??)*). Go on with the fiber that
+        // occupies its place in the list now.
+        fiber = (prev_fiber != NULL) ? prev_fiber->next : fibers.head;
         break;
 
       default:
